@@ -50,6 +50,11 @@ fn gen_value(tape: &mut Tape, depth: usize) -> Json {
     }
     match tape.weighted(&[3, 3, 2]) {
         0 => gen_scalar(tape),
+        1 if tape.chance(1, 8) => {
+            // elements that are `==` to each other without being the same value (signed zeros)
+            let n = 1 + tape.below(4);
+            Json::Array((0..n).map(|_| lit::float(if tape.bool() { 0.0 } else { -0.0 })).collect())
+        }
         1 => {
             let n = tape.below(4);
             Json::Array((0..n).map(|_| gen_value(tape, depth - 1)).collect())
@@ -282,6 +287,39 @@ pub fn run(session: &Session) -> i32 {
     }
     cases.push(json!({"kind": "value", "value": []}));
     cases.push(json!({"kind": "value", "value": [[], [[]]]}));
+    // sequences of values that look alike (`==` to each other, or printing alike) and are not the same
+    // value: every array and tuple of length 2 and 3 over each family, also one level down
+    let families: Vec<Vec<Json>> = vec![
+        vec![lit::float(0.0), lit::float(-0.0)],
+        vec![json!(1), lit::float(1.0)],
+        vec![json!(""), json!(" "), json!("\u{0}")],
+        vec![json!([]), json!([[]]), lit::tuple(vec![Json::Null, Json::Null])],
+        vec![json!(true), json!("true")],
+        vec![json!([lit::float(-0.0)]), json!([lit::float(0.0)])],
+    ];
+    for fam in &families {
+        for n in 2..=3usize {
+            let mut idx = vec![0usize; n];
+            loop {
+                let items: Vec<Json> = idx.iter().map(|i| fam[*i].clone()).collect();
+                cases.push(json!({"kind": "value", "value": items}));
+                cases.push(json!({"kind": "value", "value": lit::tuple(items.clone())}));
+                cases.push(json!({"kind": "value", "value": lit::tuple(vec![json!(items), json!(true)])}));
+                let mut k = 0;
+                while k < n {
+                    idx[k] += 1;
+                    if idx[k] < fam.len() {
+                        break;
+                    }
+                    idx[k] = 0;
+                    k += 1;
+                }
+                if k == n {
+                    break;
+                }
+            }
+        }
+    }
     session.set_extra("enumerated_cases", json!(cases.len()));
     if !session.stopped() {
         session.run_enum(&C20, cases);
